@@ -46,7 +46,14 @@ def run_one(item, workers, tier, scale):
     wt = os.path.join(tmp, "tree")
     res = {"property": prop, "description": desc, "killed": False, "applied": False}
     try:
-        subprocess.run(["git", "-C", REPO, "worktree", "add", "-q", "--detach", wt, "HEAD"], check=True, capture_output=True)
+        for attempt in range(6):  # other users of /repo's worktree list may hold its lock for a moment
+            r = subprocess.run(["git", "-C", REPO, "worktree", "add", "-q", "--detach", wt, "HEAD"], capture_output=True, text=True)
+            if r.returncode == 0:
+                break
+            time.sleep(2 + attempt)
+        else:
+            res["error"] = "git worktree add failed: " + r.stderr[:200]
+            return name, res
         r = subprocess.run(["git", "-C", wt, "apply", patch], capture_output=True, text=True)
         if r.returncode != 0:
             res["error"] = "patch does not apply: " + r.stderr[:300]
